@@ -236,7 +236,7 @@ func TestC06(t *testing.T) {
 func TestC07(t *testing.T) {
 	r := newRun(t, "C07", "exploration")
 	defer r.Finish(t)
-	r.Rule = "termination scenarios for all four variants: inputs closed in every order, interleaved with drains; then either one release is withheld, or one idle input is kept open, for 0.2..5us virtual while the channels are observed at quiescent points (closure there = early termination), or the last items stay unread; then everything is released / closed and closure of Err() (and Output() for v2, return of GracefulStop for v1) is awaited within L = 50us virtual; never-early conditions are evaluated at the instant a closure is observed: every input closed by the harness, every written item received, every received item release-started, (simple) every Handle call returned; every value read from Err() must be nil. non-trivial = normal termination observed after >= 1 hold observation; distinct by scenario fingerprint"
+	r.Rule = "termination scenarios for all four variants: inputs closed in every order, interleaved with drains; then either one release is withheld, or one idle input is kept open, for 0.2..5us virtual while the channels are observed at quiescent points (closure there = early termination), or the last items stay unread; then everything is released / closed and closure of Err() (and Output() for v2, return of GracefulStop for v1) is awaited within L = 50us virtual; never-early conditions are evaluated at the instant a closure is observed: every input closed by the harness, every written item received, every received item release-started, (simple) every Handle call returned; every value read from Err() must be nil; a v1 block repeats this across AddInput / replacement (also of closed and drained channels) / RemoveInput; a block for the simple disciplines ends them by Stop / cancel / divider error while Handle calls are running (Handle takes 0..300ns virtual to return after its context is cancelled) and requires entered = returned at the instant Err() is seen closed. non-trivial = normal termination observed after >= 1 hold observation, or (blocks 2, 3) a terminated scenario with control calls / items in flight; distinct by scenario fingerprint"
 	r.Assumptions = []string{prioAssume}
 	r.Floor = 20
 	if replayPrio(t, r) {
@@ -253,6 +253,26 @@ func TestC07(t *testing.T) {
 			if r.WantSample() {
 				r.Sample(prioSample(c))
 			}
+		}
+	})
+	// v1: termination after AddInput / replacement (also of closed and drained channels) / RemoveInput
+	r.Parallel(t, "v1-add-remove", r.Cfg.pick(500, 15000), func(t *testing.T, idx int, rng *rand.Rand) {
+		c := r.prioCase(t, genPrioScenario(rng, prioGen{Vers: []string{"v1"}, Dividers: allDividers, Mode: "addrm"}))
+		if c.res != nil && c.res.Terminated && c.res.TermWay == "drained" && c.res.CtlOps >= 1 {
+			r.NonTrivial(jsonString(c.sc))
+		}
+	})
+	// simple disciplines ended by Stop / cancel / divider error: Err() may close only after every
+	// Handle call has returned (Handle needs 0..300ns virtual to return once its context is cancelled)
+	r.Parallel(t, "simple-rough-termination", r.Cfg.pick(500, 15000), func(t *testing.T, idx int, rng *rand.Rand) {
+		sc := genPrioScenario(rng, prioGen{Vers: []string{"v1s", "v1s", "v2s"}, Dividers: allDividers, Mode: "stop", MaxH: 32})
+		if sc.Ver == "v2s" || rng.IntN(4) == 0 {
+			kinds := []string{"plus1", "double", "minus1"}
+			sc.Fault = &DivFault{At: 1 + rng.IntN(20), Kind: kinds[rng.IntN(3)]}
+		}
+		c := r.prioCase(t, sc)
+		if c.res != nil && c.res.Terminated && c.res.MaxHeld > 0 {
+			r.NonTrivial(jsonString(c.sc))
 		}
 	})
 }
